@@ -4,7 +4,10 @@ set -e
 cd "$(dirname "$0")"
 exec 9>.venv.lock
 flock 9
-if [ -x .venv/bin/python ] && .venv/bin/python -c "import z3, jsonschema, sortedcontainers, astroid, asttokens" 2>/dev/null; then
+if [ -x .venv/bin/python ] && .venv/bin/python -c "
+import z3, jsonschema, sortedcontainers, astroid, asttokens, sys
+# the repository's own dependencies must come from /venv, not from the overlay
+sys.exit(0 if asttokens.__file__.startswith('/venv/') else 1)" 2>/dev/null; then
   exit 0
 fi
 rm -rf .venv
@@ -14,4 +17,16 @@ echo "import site; site.addsitedir('/venv/lib/python3.12/site-packages')" > "$SP
 PIP_NO_INDEX=1 .venv/bin/python -m pip install -q --no-index --find-links /opt/veriftools/wheels \
   z3-solver cvc5 crosshair-tool icontract deal hypothesis jsonschema >/dev/null 2>&1 || \
 PIP_NO_INDEX=1 .venv/bin/python -m pip install -q --no-index --find-links /opt/veriftools/wheels z3-solver jsonschema
-.venv/bin/python -c "import z3, jsonschema, sortedcontainers, astroid, asttokens; print('venv ok', z3.get_version_string())"
+# Packages that the wheelhouse pulled in but that /venv already provides (asttokens) would shadow
+# the versions the repository pins: remove them from the overlay so /venv's copies are used.
+.venv/bin/python - <<'PY'
+import importlib.metadata as md, subprocess, sys
+ov = [p for p in sys.path if "/.venv/" in p and p.endswith("site-packages")][0]
+norm = lambda d: d.metadata["Name"].lower().replace("_", "-")
+mine = {norm(d) for d in md.distributions(path=[ov])}
+theirs = {norm(d) for d in md.distributions(path=["/venv/lib/python3.12/site-packages"])}
+dup = sorted((mine & theirs) - {"pip", "setuptools", "wheel"})
+if dup:
+  subprocess.check_call([sys.executable, "-m", "pip", "uninstall", "-q", "-y"] + dup)
+PY
+.venv/bin/python -c "import z3, jsonschema, sortedcontainers, astroid, asttokens; assert asttokens.__file__.startswith('/venv/'), asttokens.__file__; print('venv ok', z3.get_version_string(), 'asttokens', asttokens.__version__ if hasattr(asttokens, '__version__') else '')"
